@@ -135,7 +135,7 @@ def contracts():
                      'context.vals[1 + j] == val(' + REC % (
                          'match.groups()[j]', 'match.start(j + 1)',
                          'match.end(j + 1)') + '))']),
-            dict(anchor='for key, value', index='n',
+            dict(anchor='for key, value in match.groupdict().items()', index='n',
                  invariant=[
                      'len(context.keys) == 1 + len(match.groups()) + n',
                      'len(context.vals) == len(context.keys)',
